@@ -79,15 +79,20 @@ CHECKS = {
         text="Orchestrator.cancel injected before every delivery step j (symbolic) with up to 6 choice points of reordering (the cancel "
              "message itself can be overtaken); oracle from the ledger and the audit triggers: no Task.execute after the commit that "
              "set is_canceled, never-started stages end CANCELED/SKIPPED, every stage and the workflow reach a final status, CANCELED "
-             "unless the work had in effect finished.",
+             "unless the work had in effect finished. Also: the worker killed at its k-th commit after the accepted cancel (k symbolic); "
+             "the cancel's handlers raced at statement level against every other handler of the run (two workers, one pre-emption); one "
+             "step of RunTaskHandler / CancelWorkflowHandler from every durable state over SymDB.",
         note="Reading of 'in effect already finished': every stage complete or RUNNING with all task bodies already returned; a terminal "
-             "failure produced before the cancel may win. Stubs as C01.",
+             "failure produced before the cancel may win. In the statement-level race a task body entered by a RunTask handler that was "
+             "already in flight when the other worker committed the cancel counts as started before it. Stubs as C01.",
         design="3/C17",
     ),
     "C18": dict(
         text="Signal (persistent / transient) sent before every delivery step j (symbolic) of the suspend workload, with reordering and "
              "un-acked redelivery; crash at every commit of the suspend and resume steps. Oracle: executions of the suspending task = "
-             "1 + signals consumed, payload seen = payload sent, transient signal effective iff the stage was durably SUSPENDED when handled.",
+             "1 + signals consumed, payload seen = payload sent, transient signal effective iff the stage was durably SUSPENDED when handled "
+             "(in the statement-level race of the signal handler against the suspending RunTask: as of either reading the handler can have made). "
+             "One step of SignalStageHandler / of a suspending task over SymDB with symbolic payloads.",
         note="Bounds: one suspending stage, one signal, single worker (two-worker statement interleavings are in the race harness when present).",
         design="3/C18",
     ),
